@@ -2,11 +2,20 @@ package c03
 
 import (
 	"context"
+	"encoding/json"
 	"fmt"
 	"net/netip"
+	"os"
+	"os/exec"
+	"path/filepath"
 	"runtime"
+	"runtime/debug"
+	"sort"
+	"strconv"
+	"strings"
 	"sync"
 	"sync/atomic"
+	"testing"
 	"time"
 
 	"github.com/AdguardTeam/AdGuardDNS/internal/agd"
@@ -15,14 +24,15 @@ import (
 	"github.com/miekg/dns"
 )
 
-// runConcurrent is the concurrent phase: after a few requests to unknown
+// concurrentPhase is the concurrent phase (it runs in a child process, see
+// runConcurrent): after a few requests to unknown
 // dedicated addresses (dropped), many goroutines send recognised and
 // anonymous requests through the SAME server handlers so that requests
 // overlap inside the middlewares.  Every request is judged from its own trace
 // with the same decision table as in the sequential phases: whatever state
 // the handlers share between requests (pooled request information, caches of
 // the device finder) must not make one request inherit another's device.
-func runConcurrent(r *vkit.Run, round int) {
+func concurrentPhase(r *vkit.Run, round int) {
 	var tick atomic.Uint64
 	// The pauses only widen the overlap of requests; no verdict depends on
 	// them.
@@ -160,12 +170,16 @@ func runConcurrent(r *vkit.Run, round int) {
 		wg.Add(1)
 		go func() {
 			defer wg.Done()
+			// Requests that wrongly share state may produce torn values; turn
+			// the resulting memory faults into panics of this goroutine.
+			debug.SetPanicOnFault(true)
 			for {
 				i := int(next.Add(1)) - 1
 				if i >= len(cases) {
 					return
 				}
 				rq := cases[i]
+				rq.DB = w.DBKind
 				fl := inflight[rq.Group+"/"+rq.Server]
 				others := fl.Add(1) - 1
 				dc := w.decide(rq)
@@ -177,10 +191,23 @@ func runConcurrent(r *vkit.Run, round int) {
 				}
 				o := w.st.Serve(sr)
 				fl.Add(-1)
-				ob := observe(o)
-				w.st.Forget(o)
-				rq.DB = w.DBKind
-				w.judge(r, rq, dc, ob)
+				var ob *observed
+				func() {
+					defer func() {
+						if p := recover(); p != nil {
+							ob = nil
+							r.Violation("concurrent:corrupt-observation:"+w.server(rq.Group, rq.Server).protoName(),
+								"what the terminal handler / billing / query log recorded for an overlapped request is not even readable (torn values): "+fmt.Sprint(p),
+								witness{Req: rq, Decision: dc})
+						}
+					}()
+					ob = observe(o)
+					w.st.Forget(o)
+					w.judge(r, rq, dc, ob)
+				}()
+				if ob == nil {
+					continue
+				}
 				r.Bucket("concurrent_requests", 1)
 				// Each pair is counted once, by the request that started later.
 				r.Bucket("concurrent_same_handler_overlap_pairs", others)
@@ -199,4 +226,165 @@ func runConcurrent(r *vkit.Run, round int) {
 		}()
 	}
 	wg.Wait()
+}
+
+// ---- child process ----
+
+const (
+	envRole  = "VERIF_C03_ROLE"
+	envRound = "VERIF_C03_ROUND"
+)
+
+type childClasses struct {
+	Classes map[string][2]int `json:"classes"` // class -> {nontrivial evaluations, trivial evaluations}
+}
+
+// TestChild runs the concurrent phase when re-executed by runConcurrent.
+func TestChild(t *testing.T) {
+	if os.Getenv(envRole) != "concurrent" {
+		t.Skip("not a child")
+	}
+	round, _ := strconv.Atoi(os.Getenv(envRound))
+	r := vkit.Start(t, "C03", "exploration")
+	var mu sync.Mutex
+	cc := childClasses{Classes: map[string][2]int{}}
+	classSink = func(class string, nontrivial bool) {
+		mu.Lock()
+		v := cc.Classes[class]
+		if nontrivial {
+			v[0]++
+		} else {
+			v[1]++
+		}
+		cc.Classes[class] = v
+		mu.Unlock()
+	}
+	r.Rule("child of C03: concurrent phase")
+	concurrentPhase(r, round)
+	mu.Lock()
+	b, _ := json.Marshal(cc)
+	mu.Unlock()
+	_ = os.WriteFile(filepath.Join(r.Root, "classes.json"), b, 0o644)
+	r.Sample("child done")
+	r.Finish()
+}
+
+// runConcurrent runs the concurrent phase in a child process: requests that
+// wrongly share state can corrupt memory and kill the process, which must be
+// an observation and not the end of every monitor.
+func runConcurrent(r *vkit.Run, t *testing.T, round int) {
+	scratch := os.Getenv("VERIF_SCRATCH")
+	if scratch == "" {
+		scratch = t.TempDir()
+	}
+	root := filepath.Join(scratch, fmt.Sprintf("c03-child-%d", round))
+	if err := os.MkdirAll(root, 0o755); err != nil {
+		r.Inconclusive("concurrent phase: " + err.Error())
+		return
+	}
+	logPath := filepath.Join(root, "child.log")
+	lf, err := os.Create(logPath)
+	if err != nil {
+		r.Inconclusive("concurrent phase: " + err.Error())
+		return
+	}
+	ctx, cancel := context.WithTimeout(context.Background(), 10*time.Minute)
+	defer cancel()
+	cmd := exec.CommandContext(ctx, os.Args[0], "-test.run=^TestChild$", "-test.v", "-test.count=1", "-test.timeout=9m")
+	cmd.Env = append(os.Environ(), envRole+"=concurrent", envRound+"="+strconv.Itoa(round), "VERIF_ROOT="+root)
+	cmd.Stdout, cmd.Stderr = lf, lf
+	runErr := cmd.Run()
+	_ = lf.Close()
+	logb, _ := os.ReadFile(logPath)
+	tail := string(logb)
+	r.Bucket("concurrent_child_runs", 1)
+
+	evb, evErr := os.ReadFile(filepath.Join(root, "evidence", "C03.json"))
+	if evErr != nil {
+		// The child died before its verdict.
+		if ctx.Err() != nil {
+			r.Inconclusive("concurrent phase: child process timed out, log tail: " + lastLines(tail, 15))
+			return
+		}
+		first := ""
+		for _, l := range strings.Split(tail, "\n") {
+			if strings.HasPrefix(l, "fatal error:") || strings.HasPrefix(l, "panic:") || strings.HasPrefix(l, "unexpected fault address") ||
+				strings.HasPrefix(l, "[signal ") || strings.HasPrefix(l, "SIGSEGV") {
+				first += l + "\n"
+				if len(first) > 600 {
+					break
+				}
+			}
+		}
+		if first != "" {
+			r.Violation("concurrent:crash", "the process crashed while serving overlapping requests (after requests to unknown dedicated addresses): "+strings.TrimSpace(first),
+				map[string]any{"round": round, "exit": fmt.Sprint(runErr), "fatal": first, "log_head": firstLines(tail, 80)})
+			return
+		}
+		r.Inconclusive(fmt.Sprintf("concurrent phase: child exited (%v) without evidence, log tail: %s", runErr, lastLines(tail, 15)))
+		return
+	}
+	var ev struct {
+		Coverage struct {
+			Buckets      map[string]int64 `json:"buckets"`
+			Inconclusive []string         `json:"inconclusive"`
+			Samples      []any            `json:"samples"`
+		} `json:"coverage"`
+	}
+	if err = json.Unmarshal(evb, &ev); err != nil {
+		r.Inconclusive("concurrent phase: child evidence unreadable: " + err.Error())
+		return
+	}
+	for k, v := range ev.Coverage.Buckets {
+		if k == "violation_observations" || k == "known_finding_observations" {
+			continue
+		}
+		r.Bucket(k, v)
+	}
+	for _, s := range ev.Coverage.Inconclusive {
+		r.Inconclusive("concurrent phase (child): " + s)
+	}
+	if cb, err := os.ReadFile(filepath.Join(root, "classes.json")); err == nil {
+		var cc childClasses
+		if json.Unmarshal(cb, &cc) == nil {
+			for class, n := range cc.Classes {
+				for i := 0; i < n[0]; i++ {
+					r.Eval(class, true)
+				}
+				for i := 0; i < n[1]; i++ {
+					r.Eval(class, false)
+				}
+			}
+		}
+	} else {
+		r.Inconclusive("concurrent phase: child wrote no class list")
+	}
+	reps, _ := filepath.Glob(filepath.Join(root, "replays", "*.json"))
+	sort.Strings(reps)
+	for _, f := range reps {
+		var doc struct {
+			Key     string `json:"key"`
+			What    string `json:"what"`
+			Witness any    `json:"witness"`
+		}
+		if b, err := os.ReadFile(f); err == nil && json.Unmarshal(b, &doc) == nil && doc.Key != "" {
+			r.Violation(doc.Key, doc.What, doc.Witness)
+		}
+	}
+}
+
+func lastLines(s string, n int) string {
+	ls := strings.Split(strings.TrimRight(s, "\n"), "\n")
+	if len(ls) > n {
+		ls = ls[len(ls)-n:]
+	}
+	return strings.Join(ls, " | ")
+}
+
+func firstLines(s string, n int) []string {
+	ls := strings.Split(s, "\n")
+	if len(ls) > n {
+		ls = ls[:n]
+	}
+	return ls
 }
